@@ -199,20 +199,6 @@ structure St where
   conc : State := []
   spec : List (Nat × Spec) := []
 
-def specStep (st : List (Nat × Spec)) : Cmd → List (Nat × Spec) × Out
-  | .new slot w hm nm es ws mds =>
-    match Spec.ctor w hm nm es ws mds with
-    | (s, .ok) => (AL.set st slot s, .ok)
-    | (_, .rej) => (st, .rej)
-  | .copy a b =>
-    match AL.get? st a with
-    | some s => (AL.set st b s, .ok)
-    | none => (st, .rej)
-  | .op slot o =>
-    match AL.get? st slot with
-    | some s => let r := Spec.applyOp s o; (AL.set st slot r.1, r.2)
-    | none => (st, .rej)
-
 def showOut : Out → String | .ok => "ok" | .rej => "rej"
 
 def doStep (st : St) (toks : List String) : St × String :=
@@ -246,7 +232,7 @@ def doStep (st : St) (toks : List String) : St × String :=
     | none => (st, "bad-op")
     | some c =>
       let r := step st.conc c
-      let q := specStep st.spec c
+      let q := Spec.step st.spec c
       ({ conc := r.1, spec := q.1 }, showOut r.2 ++ (if r.2 == q.2 then "" else " !spec:out"))
 
 def main : IO Unit := Wire.run doStep {}
